@@ -155,7 +155,7 @@ func scC07(r *Run) {
 	// phase 1: writes and requests up to the Close point
 	for w.next < closeAfter && r.Stats.Steps < 2000 && !r.Failed() {
 		var acts []Action
-		if w.writer.Idle() {
+		if w.writer.Idle() && w.next < len(w.script) {
 			acts = append(acts, Action{"write", 10, func() {
 				cl := w.writeNext()
 				w.poll()
